@@ -1050,14 +1050,18 @@ func (p *PubSub) processLoop(ctx context.Context) {
 			// The message was checked against the blacklist before it entered the
 			// validation pipeline; its forwarder or author may have been blacklisted
 			// while it was being validated.
+			// It is reported like a message the validators ignored: the blacklist
+			// reasons are what tracers see for messages that never entered the
+			// pipeline, and they keep (rather than release) what they track for a
+			// message ID in that case - here the message has left the pipeline.
 			if p.blacklist.Contains(msg.ReceivedFrom) {
 				p.logger.Debug("dropping validated message from blacklisted peer", "peer", msg.ReceivedFrom)
-				p.tracer.RejectMessage(msg, RejectBlacklstedPeer)
+				p.tracer.RejectMessage(msg, RejectValidationIgnored)
 				continue
 			}
 			if p.blacklist.Contains(msg.GetFrom()) {
 				p.logger.Debug("dropping validated message from blacklisted source", "source", msg.GetFrom())
-				p.tracer.RejectMessage(msg, RejectBlacklistedSource)
+				p.tracer.RejectMessage(msg, RejectValidationIgnored)
 				continue
 			}
 			p.publishMessage(msg)
